@@ -607,6 +607,11 @@ class Engine:
         if isinstance(a, Opaque) or isinstance(b, Opaque):
             return [(Opaque("binop"), s)]
         # strings / terminal strings
+        if (is_sym(a) and z3.is_string(a)) or (is_sym(b) and z3.is_string(b)):
+            if isinstance(op, ast.Add) and all(isinstance(x, str) or (is_sym(x) and z3.is_string(x)) for x in (a, b)):
+                zs = lambda x: z3.StringVal(x) if isinstance(x, str) else x
+                return [(z3.Concat(zs(a), zs(b)), s)]
+            raise Unsupported("operation on a symbolic string")
         if isinstance(a, (str, TS)) or isinstance(b, (str, TS)):
             try:
                 return [(tstr.str_binop(op, a, b), s)]
@@ -1041,6 +1046,15 @@ class Engine:
             return [(sum(1 for x in recv if x == args[0]), s)]
         if isinstance(recv, bytes) and not any(is_sym(a) for a in args):
             return [(getattr(recv, name)(*args), s)]
+        if is_sym(recv) and z3.is_string(recv):
+            if name == "lstrip" and len(args) == 1 and isinstance(args[0], str) and len(args[0]) == 1:
+                # nothing to strip when the string cannot start with that character (decided under the path condition)
+                if not self.feasible(s.pc + [z3.PrefixOf(z3.StringVal(args[0]), recv)]):
+                    return [(recv, s)]
+                raise Unsupported("lstrip on a symbolic string that may start with the character")
+            if name == "lower":
+                raise Unsupported("lower() on a symbolic string")
+            raise Unsupported(f"method {name} on a symbolic string")
         if is_sym(recv) and z3.is_int(recv) and name == "bit_length":
             raise Unsupported("bit_length")
         raise Unsupported(f"method {name} of {recv!r}")
@@ -1891,13 +1905,27 @@ def _b_int(eng, s, args, kw):
         return [(x, s)]
     if z3.is_real(x):
         return [(z3.If(x >= 0, z3.ToInt(x), -z3.ToInt(-x)), s)]
+    if z3.is_string(x):
+        # int(s) of a string of ASCII digits (anything else raises ValueError)
+        out = []
+        for ok, s2 in eng.split(s, z3.InRe(x, z3.Plus(z3.Range("0", "9")))):
+            if ok:
+                out.append((z3.StrToInt(x), s2))
+            else:
+                eng.raise_("ValueError", s2)
+        return out
     raise Unsupported("int() of symbolic non-number")
+
+
+PY_FLOAT = z3.Function("py_float", z3.StringSort(), z3.RealSort())
 
 
 def _b_float(eng, s, args, kw):
     x = as_arith(args[0])
     if not is_sym(x):
         return [(float(x), s)]
+    if z3.is_string(x):
+        return [(PY_FLOAT(x), s)]      # float() of a numeric literal: an uninterpreted function of the text
     return [(z3.ToReal(x) if z3.is_int(x) else x, s)]
 
 
@@ -2044,5 +2072,5 @@ BUILTINS = {
     "ceil": _b_ceil, "floor": _b_floor, "sum": _b_sum, "divmod": _b_divmod, "type": _b_type, "getattr": _b_getattr,
     "hasattr": _b_hasattr, "next": _b_next, "iter": _b_iter, "str": _b_str, "repr": _b_repr, "id": _b_id, "hash": _b_hash,
     "reversed": _b_reversed, "sorted": _b_sorted, "frozenset": _b_frozenset, "callable": _b_callable,
-    "print": _b_print, "issubclass": _b_issubclass,
+    "print": _b_print, "issubclass": _b_issubclass, "set": _b_frozenset,
 }
